@@ -6,6 +6,7 @@ namespace c20 {
 en::Recorder R;
 int g_side_effects = 0;
 int g_live = 0;
+const int g_named = 77;
 int throwing_value() { throw std::runtime_error("ret"); }
 }
 using namespace c20;
